@@ -85,7 +85,9 @@ def run_module(src, name, workdir, per_condition_timeout=20, hard_timeout=None):
         else:
             res[fn]["verdict"] = "inconclusive"
             res[fn]["message"] = msg[:300]
-    return dict(module=name, path=path, conditions=res, wall_s=round(wall, 2), timed_out=timed_out, raw_tail=out[-600:] if (timed_out or not out.strip()) else "")
+    import_failed = ("Traceback" in out and all(c["verdict"] == "no-verdict" for c in res.values()))
+    return dict(module=name, path=path, conditions=res, wall_s=round(wall, 2), timed_out=timed_out or import_failed,
+                raw_tail=out[-600:] if (timed_out or import_failed or not out.strip()) else "")
 
 
 def replay_native(path, call_text):
